@@ -32,7 +32,7 @@ RULE = ("C05's program generator (strings, tokenizer+builder with per-stream fla
         "or zero divisor, and >=1 round with all inputs present")
 OPS = ["+", "-", "*", "/", "min", "max"]
 REQUIRED_BUCKETS = (["enc:none", "enc:nan", "enc:inf", "enc:-inf", "naz-formula", "naz-stream", "naz-off",
-                     "division-by-zero", "overflow-expected-None", "consumption-of-missing", "production-of-missing", "expected-None",
+                     "division-by-zero", "overflow-expected-None", "consumption-of-missing", "production-of-missing", "clip-of-missing", "expected-None",
                      "expected-value-despite-missing(zeros)"]
                     + [f"missing-{side}-of:{op}" for op in OPS for side in ("left", "right")])
 REQUIRED_COUNTERS = ["rounds_checked", "programs_run"]
@@ -60,7 +60,7 @@ def gen(rng: Any, tier: str, i: int) -> Any:
     for k in range(1, len(prog["vectors"])):
         if rng.random() < 0.12:
             prog["vectors"][k] = [rng.choice([1e200, -1e200, 1e160, 3e307, 2.0]) for _ in range(n)]
-    if prog["mode"] == "builder":
+    if prog["mode"] in ("builder", "builderx"):
         prog["leaf_naz"] = [rng.random() < 0.4 for _ in range(n)]
         prog["naz"] = False
     elif prog["mode"] == "api":
